@@ -78,14 +78,21 @@ func noCustom(t *pgen.Type) bool {
 
 func checkC04(c *Ctx) {
 	c.Anchors = []string{"plugin/hash", "plugin/sort", "plugin/keys"}
-	c.Run.Rule = "items as in C02 (without types whose Equal is a custom user method); per item every pair that the DERIVED Equal judges equal must hash equal: pool pairs, fresh deep copies, copies with spare capacity and maps re-inserted in reverse key order, +0/-0 flips, and every single-position mutant that Equal ignores; each value is hashed 9 times in-process; the harness binary is executed twice and the per-value hash tables of the two processes are compared; arguments are snapshotted before/after"
+	c.Run.Rule = "items as in C02 (types with a hand-written Equal carry a hand-written Hash consistent with it); per item every pair that the DERIVED Equal judges equal must hash equal: pool pairs, fresh deep copies, copies with spare capacity and maps re-inserted in reverse key order, +0/-0 flips, and every single-position mutant that Equal ignores; each value is hashed 9 times in-process; the harness binary is executed twice and the per-value hash tables of the two processes are compared; arguments are snapshotted before/after"
 	c.Run.Assume = []string{"'equal' is the derived Equal of the same package (relative property)", "two executions of the same binary stand for 'across processes'"}
 	c.Run.Floor = 50
 	sel := shapeSel{
 		ExtraTypes: commonExtras,
 		Forms:      []string{"top", "field"}, QuickDeep: 70, QuickRand: 24, ThorRand: 400, BatchSize: 44,
-		KeepShape: func(t *pgen.Type) bool { return behaviouralShape(t) && noCustom(t) },
-		Ops:       func(t *pgen.Type, form string) []string { return []string{"hash", "equal"} },
+		// types with a hand-written Equal also have a hand-written Hash consistent with it: at component
+		// positions both methods decide; at the top level both derived functions are structural
+		KeepShape: behaviouralShape,
+		Ops: func(t *pgen.Type, form string) []string {
+			if form == "top" && topIsCustom(t) {
+				return nil
+			}
+			return []string{"hash", "equal"}
+		},
 	}
 	batches := c.buildTypeBatches(sel)
 	rememberUniverses(batches)
